@@ -6,7 +6,7 @@ from typing import Dict, List, Optional
 
 import networkx as nx
 
-from ..cfg import ENTRY, EXIT, RAISE
+from ..cfg import ENTRY, EXIT, RAISE, reaching_defs
 from ..common import calls_named, dotted, kw, loc, norm
 from ..model import AnalysisError, External, own_nodes
 from .util import anchor_func, assigned_name, build_cfg, facts
@@ -79,6 +79,22 @@ def r16_2(run):
     ok = bool(cont) and all(ns in nx.descendants(cfg.g, c) for c in cont)
     flagtest = [n for n, s in cfg.stmt.items() if cfg.label[n] == "If" and "C_CONTIGUOUS" in norm(s) and norm(s).startswith("not ")]
     ok = ok and (not flagtest or all(cfg.edge_dominates(t, "true", c) for t in flagtest for c in cont))
+    # ... and a test that lets the copy be skipped must establish the contiguity of the *whole* array that is strided (the stride arithmetic
+    # starts from the leading axis): its subject is that array itself, not a slice / sub-view of it
+    a0_ = strided[0].args[0] if strided[0].args else None
+    subj_ok = True
+    for n_, s_ in cfg.stmt.items():
+        if cfg.label[n_] == "If" and ("CONTIGUOUS" in norm(s_).upper()):
+            e_ = s_.operand if isinstance(s_, ast.UnaryOp) and isinstance(s_.op, ast.Not) else s_
+            base_ = e_.value if isinstance(e_, ast.Subscript) else e_          # <x>.flags['C_CONTIGUOUS']  |  <x>.flags.c_contiguous
+            base_ = base_.value if isinstance(base_, ast.Attribute) and base_.attr in ("flags", "c_contiguous") else base_
+            base_ = base_.value if isinstance(base_, ast.Attribute) and base_.attr == "flags" else base_
+            if a0_ is None or norm(base_) != norm(a0_):
+                subj_ok = False
+    run.ob("R16.2", loc(fi, fi.node), fi.short, "the contiguity test that lets the copy be skipped looks at the whole strided array", subj_ok,
+           f"subject of the flags test is `{norm(a0_) if a0_ is not None else '?'}` itself" if subj_ok else
+           "contiguity is established for a slice / sub-view only: strides computed from the full shape address the wrong elements of an array "
+           "that is strided along its leading axes (x[::2], x[:, 1:], a Tensor view)")
     run.ob("R16.2", loc(fi, fi.node), fi.short, "the C-contiguity normalisation precedes the striding", ok,
            "np.ascontiguousarray(arr) (guarded by the flags test) is an ancestor of the as_strided node" if ok else
            "strides computed for C order are applied to an array of another layout: the view can address memory outside arr")
@@ -351,7 +367,55 @@ def r16_7(run):
     run.ob("R16.7", "mygrad/nnet", "mygrad.nnet", "no forward pass casts an operand to a sibling operand's dtype", True, f"{n} forward passes scanned", nontrivial=False)
 
 
+def r16_9(run):
+    """options are validated *as given*: the value an integrality guard of sliding_window_view tests is the caller's sequence itself (or a
+    value-preserving re-wrap: tuple(p), list(p), np.asarray(p) without dtype) -- never an integer-cast copy, which would turn 2.5 into 2 before
+    the guard can reject it"""
+    fi = anchor_func(run, SWV)
+    params = [a.arg for a in fi.node.args.args + fi.node.args.kwonlyargs]
+    n = 0
+    for nm_ in params[1:]:
+        # the sequence form of the option: not None, not a bare integer
+        cfg = build_cfg(run, fi, {f"isinstance({nm_}, Integral)": False, f"{nm_} is None": False, f"hasattr({nm_}, '__iter__')": True})
+        guards = []
+        for g_ in _raising_guards(cfg):
+            gt = cfg.stmt[g_]
+            for ge in ast.walk(gt):
+                if isinstance(ge, ast.GeneratorExp) and norm(ge.generators[0].iter) == nm_ and "Integral" in norm(ge.elt):
+                    guards.append(g_)
+        for g_ in guards:
+            if not cfg.reachable(g_):
+                continue
+            n += 1
+            bad = []
+            for d in reaching_defs(cfg, nm_, g_):
+                if d == ENTRY:
+                    continue
+                v = getattr(cfg.stmt[d], "value", None)
+                if _value_preserving_rewrap(v, nm_):
+                    continue
+                bad.append(norm(cfg.stmt[d])[:70])
+            run.ob("R16.9", loc(fi, cfg.stmt[g_]), fi.short, f"the integrality guard of `{nm_}` tests the caller's values", not bad,
+                   "reaching definitions: the parameter itself / tuple(...) / asarray without dtype" if not bad else
+                   f"`{bad[0]}` converts the option before it is validated: non-integer entries are truncated and accepted instead of rejected")
+    run.count("integrality guards of sliding_window_view options", n)
+
+
+def _value_preserving_rewrap(v, nm_) -> bool:
+    if isinstance(v, ast.Name) and v.id == nm_:
+        return True
+    if isinstance(v, ast.Call) and len(v.args) == 1 and norm(v.args[0]) == nm_:
+        f = dotted(v.func) or ""
+        if f in ("tuple", "list") and not v.keywords:
+            return True
+        if f in ("np.asarray", "numpy.asarray", "np.array", "numpy.array", "np.asanyarray") and not any(k.arg == "dtype" for k in v.keywords):
+            return True
+    return False
+
+
 def check(run):
+    run.rule("R16.9", "the integrality guards of sliding_window_view test the options as the caller gave them (no integer cast before validation)", floor=2)
+    run.do(r16_9)
     run.rule("R16.1", "every as_strided view is read-only (or strides a buffer the function allocated itself)", floor=2)
     run.rule("R16.2", "sliding_window_view validates and normalises to C-contiguity before it strides; "
              "ConvND/MaxPoolND size checks dominate window creation", floor=14)
